@@ -224,9 +224,9 @@ def replay(prop, h, fcs, src, target, logs, env):
     if not ok:
         out["detail"] = detail
         return out
-    # stubbed harnesses have the largest traces (Kani's playback can need > 15 GB / > 30 min for them): try the
-    # cheap native search first; plain harnesses: the solver's own assignment first
-    order = ["fuzz", "kani"] if h.get("native_stubs") else ["kani", "fuzz"]
+    # the native search is cheap (one native test build, then micro-seconds per try) and needs no trace; Kani's own
+    # playback of the solver's assignment is the fallback (its trace parsing was seen at 16-39 GB / > 30 min)
+    order = ["fuzz", "kani"]
     attempts = []
     got = None
     for how in order:
